@@ -40,6 +40,43 @@ MUTANTS = [
      "        if \"[]\" in accumulator:\n            del accumulator[\"[]\"]\n", "", r"_get_dimensionality\[uc\].*(dim|cache)"),
     ("dim-cache-wrong-key", "C01", "pint/facets/plain/registry.py",
      "        cache[input_units] = dims\n", "        cache[dims] = dims\n", r"_get_dimensionality\[uc\].*cache"),
+    ("root-recurse-scale-not-raised", "C02", "pint/facets/plain/registry.py",
+     "                accumulators[None] *= reg.converter.scale**exp2\n", "                accumulators[None] *= reg.converter.scale\n",
+     r"_get_root_units_recurse.*(factor|hint)"),
+    ("root-recurse-base-wrong-exp", "C02", "pint/facets/plain/registry.py",
+     "                accumulators[key] += exp2\n", "                accumulators[key] += exp\n", r"_get_root_units_recurse.*units"),
+    ("factor-swapped-ratio", "C02", "pint/facets/plain/registry.py",
+     "        factor, _ = self._get_root_units(src / dst)\n", "        factor, _ = self._get_root_units(dst / src)\n",
+     r"_get_conversion_factor.*(factor_is_ratio|cache)"),
+    ("factor-gate-compares-one-side", "C01", "pint/facets/plain/registry.py",
+     "        if src_dim != dst_dim:\n            return DimensionalityError(src, dst, src_dim, dst_dim)\n",
+     "        if not src_dim and dst_dim:\n            return DimensionalityError(src, dst, src_dim, dst_dim)\n",
+     r"_get_conversion_factor.*error_iff"),
+    ("chain-appends-instead-of-prepends", "C12", "pint/facets/context/objects.py",
+     "        self.contexts = list(reversed(contexts)) + self.contexts\n", "        self.contexts = self.contexts + list(reversed(contexts))\n",
+     r"insert_contexts|enter_exit"),
+    ("compare-skips-dimension-check", "C05", "pint/facets/plain/quantity.py",
+     "        if self.dimensionality != other.dimensionality:\n            raise DimensionalityError(",
+     "        if False:\n            raise DimensionalityError(", r"compare.*(DimensionalityError|raises)"),
+    ("eq-compares-magnitudes-only", "C05", "pint/facets/plain/quantity.py",
+     "                self._convert_magnitude_not_inplace(other._units),\n                other._magnitude,\n                False,\n            )\n        except DimensionalityError:",
+     "                self._magnitude,\n                other._magnitude,\n                False,\n            )\n        except DimensionalityError:",
+     r"__eq__.*equal_iff"),
+    ("alias-not-indexed", "C08", "pint/facets/plain/registry.py",
+     "            self._helper_single_adder(alias, unit, self._units, self._units_casei)\n",
+     "            self._helper_single_adder(alias, unit, self._units, None)\n", r"_add_alias.*indexed"),
+    ("adder-indexes-wrong-key", "C08", "pint/facets/plain/registry.py",
+     "            casei_target_dict[key.lower()].add(key)\n", "            casei_target_dict[key].add(key)\n", r"_helper_single_adder.*index"),
+    ("as-delta-false-overridden", "C08", "pint/facets/nonmultiplicative/registry.py",
+     "        if as_delta is None:\n            as_delta = self.default_as_delta\n", "        as_delta = as_delta or self.default_as_delta\n",
+     r"parse_units_as_container.*explicit"),
+    ("literal-int-via-float", "C07", "pint/util.py",
+     "                try:\n                    return int(token_text)\n                except ValueError:\n                    return float(token_text)\n",
+     "                return float(token_text)\n", r"eval_token.*integer_literals"),
+    ("check-accepts-same-class", "C18", "pint/util.py",
+     "        if self._REGISTRY is getattr(other, \"_REGISTRY\", None):\n            return True\n",
+     "        if self._REGISTRY is getattr(other, \"_REGISTRY\", None) or other.__class__ is self.__class__:\n            return True\n",
+     r"_check.*(same_registry|raises)"),
 ]
 
 
